@@ -153,7 +153,7 @@ def gen_case(rng, tier):
                 head=head, R=R, p=p, n=n, bs=bs, cls=rng.randrange(K), mode=mode,
                 xs=gen_images(rng, N, C, H, W), seed=rng.randrange(1 << 30),
                 zero_row=(rng.randrange(R) if rng.random() < 0.25 else None),
-                affine=rng.choice([[2.0, 0.0], [0.5, 3.0], [3.0, -1.25], [8.0, 100.0], [2.0 ** -10, 0.0], [2.0 ** -12, 1.0], [2.0 ** -8, -0.5]]))
+                affine=rng.choice([[2.0, 0.0], [0.5, 3.0], [3.0, -1.25], [8.0, 100.0], [2.0 ** -10, 0.0], [2.0 ** -12, 1.0], [2.0 ** -8, -0.5], [2.0 ** -16, 0.0], [2.0 ** -20, 2.0 ** -12], [2.0 ** -16, 0.0]]))
     case["xq"] = gen_images(rng, rng.choice([1, 2, 3]), C, H, W) if mode == "other" else None
     case["warm_n"] = rng.choice([k for k in (2, 3, 4, 5, 8, 16, 32) if k != n]) if rng.random() < 0.5 else None
     return case
